@@ -203,6 +203,7 @@ def scenario(sseed, mode, do_reload=True):
                 else:
                     out.append(dict(name=nm, kind="choice", conds=conds, values=["p", "q", "r"], default="q"))
             return out
+        declared_any = [False]
         while steps < 6000 and not aborted and (hold or len(stopped) < len(tun)):
             steps += 1
             if steps == reload_at and do_reload:
@@ -227,8 +228,13 @@ def scenario(sseed, mode, do_reload=True):
                     t.status = "COMPLETED"
                 else:
                     t.status = {"INV": "INVALID", "FAIL": "FAILED"}[oc]
-                if uniform:
+                if uniform and oc == "INV" and R.random() < 0.5:
+                    # the run crashed BEFORE its build function reached the late declarations: this run reports none of them
+                    # (its retry, or any other trial, will)
+                    tags["crashed-before-declaring"] += 1
+                elif uniform:
                     declare_late(t.hyperparameters)
+                    declared_any[0] = True
                     tags["discovered"] += 1
                 elif mode == "discover" and R.random() < 0.3 and disc_n[0] < 3:
                     disc_n[0] += 1
@@ -307,7 +313,7 @@ def scenario(sseed, mode, do_reload=True):
                 # at their defaults - that is what its build function used) against the enumeration of the final space
                 # the final space as it has to be: what was given plus what every trial declares - computed from the scenario,
                 # not read back from the oracle (an entry the oracle failed to merge must show)
-                fspecs = (specs + late_specs()) if uniform else gen.specs_of(o.hyperparameters)
+                fspecs = ((specs + late_specs()) if declared_any[0] else list(specs)) if uniform else gen.specs_of(o.hyperparameters)
                 if uniform and len(o.trials) >= 1:
                     have_ = {(p_.name, tuple((c_.name, tuple(map(str, c_.values))) for c_ in p_.conditions)) for p_ in o.hyperparameters.space}
                     want_ = {(s_["name"], tuple((c_[0], tuple(map(str, c_[1]))) for c_ in s_["conds"])) for s_ in fspecs}
@@ -322,8 +328,20 @@ def scenario(sseed, mode, do_reload=True):
                     if fin != want:
                         missing = list((want - fin).keys())[:2]
                         extra = list((fin - want).keys())[:2]
-                        raise Violation("C09", f"grid with discovery ran {len(o.trials)} trials for {len(fref)} combinations of the final space; missing {missing} extra/duplicate {extra}",
-                                        {"tag": "coverage", "mode": mode})
+                        sig = {"tag": "coverage", "mode": mode}
+                        # known finding F24: a trial whose every run crashed before its build function reached the late declarations is
+                        # recorded without them; the combinations that differ from it only in those entries are never generated.
+                        # Recognised by: nothing extra, and every missing combination agrees with such a trial on all entries it holds
+                        late_names = {s_["name"] for s_ in late_specs()} - {s_["name"] for s_ in specs}
+                        bare = [dict(tr.hyperparameters.values) for tr in o.trials.values() if not (late_names & set(tr.hyperparameters.values))]
+                        allmissing = [json.loads(k_) for k_ in (want - fin).keys()]
+
+                        def agrees(comb, vals):
+                            return all(k_ in comb and comb[k_][1] == v_ for k_, v_ in vals.items())
+                        if declared_any[0] and bare and not (fin - want) and all(any(agrees(c_, b_) for b_ in bare) for c_ in allmissing):
+                            sig["cause"] = "trial-never-declared"
+                        raise Violation("C09", f"grid with discovery ran {len(o.trials)} trials for {len(fref)} combinations of the final space; missing {missing} extra/duplicate {extra}"
+                                        + (" (all next to a trial that crashed before declaring the late entries)" if "cause" in sig else ""), sig)
         doc = {"suite": "grid", "seed": sseed, "mode": mode, "combinations": len(ref), "workers": len(tun), "tags": dict(tags)}
     return lines, expect, doc, tags
 
@@ -332,7 +350,7 @@ def guarded(sseed, mode):
     try:
         return scenario(sseed, mode)
     except Violation as v:
-        if mode == "discover-reload" and v.pid == "C09":
+        if mode == "discover-reload" and v.pid == "C09" and (v.sig or {}).get("cause") != "trial-never-declared":
             # is the reload to blame? the same search without the interruption decides
             try:
                 scenario(sseed, mode, do_reload=False)
